@@ -17,7 +17,7 @@ from .core import fbits, fhex, unhex, sha
 APIS = ('cost:r2', 'cost:rmspe', 'cost:rmsle', 'cost:rpd', 'cost:smape', 'rmse')
 MODES = ('shared', 'default', 'fresh')
 MOVES = ('refine', 'coarsen', 'shift', 'subset', 'all', 'ends', 'repeat', 'blocks')
-FAULTS = ('RESTART', 'SNAPSHOT', 'ROLLBACK', 'DUP', 'HANDOVER')
+FAULTS = ('RESTART', 'SNAPSHOT', 'ROLLBACK', 'DUP', 'HANDOVER', 'REFILL')
 DIAG_FAULTS = ('EVICT', 'INTERRUPT')
 
 
@@ -43,7 +43,7 @@ def _move(rng, n, R, kind):
             R = sorted([0, n - 1] + rng.sample(range(1, n - 1), k))
     elif kind == 'blocks':
         # segments of exactly L points (block sizes of chunked implementations), remainder at the end
-        L = rng.choice([3, 4, 8, 16, 32, 64, 128, 256, 512, 1024])
+        L = rng.choice([3, 4, 8, 16, 32, 64, 128, 256, 512, 1024, 2048, 4096, 8192])
         if n > L:
             R = list(range(0, n - 1, L - 1)) + [n - 1]
             R = sorted(set(R))
@@ -93,7 +93,7 @@ def gen_plan(rng, tier='quick', config='B', traces=None, boost=()):
                 fam = 'trace:' + name
             else:
                 fam, pts = curves.gen_curve(rng, curves.draw_n(rng, tier), rng.choice(fams))
-            pool.append({'family': fam, 'points': [[fhex(x), fhex(y)] for x, y in pts], 'readonly': False})
+            pool.append({'family': fam, 'points': [[fhex(x), fhex(y)] for x, y in pts], 'readonly': False, 'int64': rng.random() < 0.5})
             ci = len(pool) - 1
         mode = rng.choice(['shared', 'shared', 'shared', 'default', 'fresh']) if config != 'A' \
             else rng.choice(['shared', 'shared', 'default', 'fresh'])
@@ -135,6 +135,12 @@ def gen_plan(rng, tier='quick', config='B', traces=None, boost=()):
                     steps.append(q)
             elif f == 'HANDOVER':
                 steps.append({'s': s, 'op': 'HANDOVER', 'mode': rng.choice(MODES)})
+            elif f == 'REFILL':
+                # the caller reads the next trace into the same buffer (same object, same address) and starts over
+                # with new caches: anything keyed on the identity of the array is now stale
+                steps.append({'s': s, 'op': 'REFILL', 'factor': fhex(rng.choice([0.5, 2.0, 3.0, 1.5])), 'flip': rng.random() < 0.4})
+                snaps[s] = 0
+                last_q.pop(s, None)
             elif f == 'EVICT':
                 steps.append({'s': s, 'op': 'EVICT', 'frac': rng.choice([0.1, 0.5, 0.9]), 'salt': rng.randrange(1 << 30)})
             elif f == 'INTERRUPT':
@@ -149,7 +155,7 @@ def gen_plan(rng, tier='quick', config='B', traces=None, boost=()):
             if len(R) > 32:      # MIP costs one evaluation per interior breakpoint (and the oracle as many again)
                 R = sorted([R[0], R[-1]] + rng.sample(R[1:-1], 30))
             if len(R) > 2:
-                steps.append({'s': s, 'op': 'MIP', 'R': list(R), 'rt': rng.choice(['nd', 'nd', 'nd32', 'nd16'])})
+                steps.append({'s': s, 'op': 'MIP', 'R': list(R), 'rt': rng.choice(['nd', 'nd', 'nd32', 'nd16', 'nd8', 'list'])})
                 prev_kind = 'MIP'
                 continue
         if (r < mip_rate + grdp_rate and n >= 3 and sessions[s]['api'] != 'rmse' and n <= 400
@@ -162,7 +168,7 @@ def gen_plan(rng, tier='quick', config='B', traces=None, boost=()):
         kind = rng.choice(moves)
         R = _move(rng, n, cur[s], kind)
         cur[s] = R
-        q = {'s': s, 'op': 'Q', 'R': list(R), 'rt': rng.choice(['nd', 'nd', 'list', 'slist', 'nd32', 'nd16', 'nd8'])}
+        q = {'s': s, 'op': 'Q', 'R': list(R), 'rt': rng.choice(['nd', 'nd', 'list', 'slist', 'snd', 'snd', 'nd32', 'nd16', 'nd8'])}
         steps.append(q)
         last_q[s] = q
         prev_kind = kind if kind in ('refine', 'coarsen') else 'Q'
@@ -216,6 +222,13 @@ def _call(ev, metrics, sess, R, rt, cache_kind):
         Rarg.flags.writeable = False       # e.g. indices that live in a memory-mapped or shared read-only array
     elif rt == 'tuple':
         Rarg = tuple(int(r) for r in R)
+    elif rt == 'snd':
+        # one index array per session, edited in place when the number of breakpoints is unchanged (a shift)
+        if sess.rarr is not None and len(sess.rarr) == len(R):
+            sess.rarr[:] = R
+        else:
+            sess.rarr = np.array(R, dtype=np.int64)
+        Rarg = sess.rarr
     elif rt == 'slist':
         # one list object per session, edited in place between queries (what rdp._grdp does: append + sort)
         sess.rlist[:] = [int(r) for r in R]
@@ -282,6 +295,9 @@ def execute(plan, stats=None, check=True, want_events=True):
         st[k] = st.get(k, 0) + d
 
     pool = [np.array([[unhex(x), unhex(y)] for x, y in c['points']], dtype=float) for c in plan['pool']]
+    for ci_, c in enumerate(plan['pool']):
+        if c.get('int64') and np.all(pool[ci_] == np.round(pool[ci_])) and np.all(np.abs(pool[ci_]) < 2 ** 40):
+            pool[ci_] = pool[ci_].astype(np.int64)        # integer-typed trace (cache sizes, counts), as in the library's own tests
     for c, arr in zip(plan['pool'], pool):
         if c.get('readonly'):
             arr.flags.writeable = False
@@ -298,6 +314,7 @@ def execute(plan, stats=None, check=True, want_events=True):
         s.tainted = False
         s.snap_taint = []
         s.rlist = []
+        s.rarr = None
         sessions.append(s)
     same_curve_diff_metric = len(set((s.curve) for s in sessions)) < len(sessions)
     if same_curve_diff_metric:
@@ -335,7 +352,7 @@ def execute(plan, stats=None, check=True, want_events=True):
                         bump('fault.idle')
                 if rt in ('list', 'slist'):
                     bump('probe.list_typed_R')
-                if rt == 'slist':
+                if rt in ('slist', 'snd'):
                     bump('probe.same_list_object_edited_in_place')
                 if rt in ('nd32', 'nd16', 'nd8'):
                     bump('probe.narrow_int_R')
@@ -387,8 +404,10 @@ def execute(plan, stats=None, check=True, want_events=True):
                 events.append([k, stp['s'], 'GRDP-skipped-after-interrupt'])
             elif op == 'MIP':
                 R = stp['R']
-                mdt = {'nd32': np.int32, 'nd16': np.int16 if len(s.points) < 30000 else np.int32}.get(stp.get('rt'), np.int64)
-                r = _try(ev.mip, s.points, np.array(R, dtype=mdt))
+                mdt = {'nd32': np.int32, 'nd16': np.int16 if len(s.points) < 30000 else np.int32,
+                       'nd8': np.int8 if len(s.points) <= 120 else np.int16}.get(stp.get('rt'), np.int64)
+                marg = [int(r) for r in R] if stp.get('rt') == 'list' else np.array(R, dtype=mdt)
+                r = _try(ev.mip, s.points, marg)
                 bump('mip_calls')
                 if r[0] == 'exc':
                     raise Violation('O5', k, 'mip raised on valid input: ' + r[1])
@@ -423,6 +442,24 @@ def execute(plan, stats=None, check=True, want_events=True):
                     s.cache = copy.deepcopy(s.snaps[j])
                     s.tainted = s.snap_taint[j]
                 events.append([k, stp['s'], 'ROLLBACK', j])
+            elif op == 'REFILL':
+                arr = s.points
+                if arr.dtype.kind == 'f':
+                    new_y = (arr[::-1, 1] if stp.get('flip') else arr[:, 1]) * unhex(stp['factor'])
+                    arr[:, 1] = new_y
+                    bump('fault.REFILL')
+                    if any(len(ss.cache) for ss in sessions if ss.points is arr):
+                        nontrivial_fault = True
+                    # every session on this buffer now works on a new curve: new caches (one cache per curve),
+                    # snapshots of the old curve are void, and its recorded history no longer applies
+                    for ss in sessions:
+                        if ss.points is arr:
+                            ss.cache = _new_cache(ss.ckind)
+                            ss.snaps = []
+                            ss.snap_taint = []
+                            ss.tainted = poisoned_run
+                    history = [h for h in history if sessions[h[0]].points is not arr]
+                events.append([k, stp['s'], 'REFILL'])
             elif op == 'HANDOVER':
                 if s.mode != stp['mode']:
                     bump('fault.HANDOVER')
@@ -474,6 +511,9 @@ def _check_definition(s, R, v, k, bump):
     v = float(v)
     pts = s.points
     # O3 range / identities
+    if v != v and s.api == 'cost:rmsle' and refmodel.rmsle_nan_admitted(pts, R):
+        bump('ref.nan_admitted_ill_conditioned_chord')
+        return        # see refmodel.rmsle_nan_admitted: no verdict on the value (O1 still compared it bit for bit)
     if not (v >= 0):
         raise Violation('O3', k, {'value': fhex(v), 'why': 'value not >= 0', 'api': s.api, 'R': R})
     if s.api != 'rmse' and len(R) == n:
@@ -609,6 +649,8 @@ def _grdp_step(ev, metrics, rdp, s, stp, k, events, bump, check):
     bump('o7_chain_len', len(trace))
     # the chain itself satisfies the definition
     for R, v in trace[-3:]:
+        if float(v) != float(v) and s.api == 'cost:rmsle' and refmodel.rmsle_nan_admitted(s.points, R):
+            continue
         lo, hi = refmodel.global_cost_iv(s.points, R, s.api.split(':')[1])
         if not (lo <= float(v) <= hi):
             raise Violation('O2', k, {'value': fhex(v), 'lo': fhex(lo), 'hi': fhex(hi), 'api': s.api, 'R': R,
